@@ -1946,6 +1946,91 @@ def model_std_calls(mir, facts=None, owner=None):
         tmp2, inl = inline_mir(tmp, facts, owner or '?', lambda g_, t_, gp=g.path: g_.path == gp, depth=1)
         blocks, locals_ = tmp2['blocks'], tmp2['locals']
         src_blocks = blocks
+    # ---- `(a..=b).contains(&x)` / `(a..b).contains(&x)` over integers with constant bounds: the two comparisons it stands for
+    src_blocks = blocks if blocks is not None else mir['blocks']
+    cur_locals = locals_ if locals_ is not None else mir['locals']
+
+    def single_def(l):
+        found = []
+        for bj, b2 in enumerate(src_blocks):
+            for st in b2['stmts']:
+                if st['k'] == 'assign' and st['lhs']['l'] == l:
+                    found.append(('stmt', st))
+            t2 = b2['term']
+            if t2['k'] == 'call' and t2.get('dest') and t2['dest']['l'] == l:
+                found.append(('call', t2))
+        return found[0] if len(found) == 1 else None
+
+    def through_refs(l, depth=0):
+        """the place a chain of shared reborrows `_6 = &(*_7); _7 = &_1` points at"""
+        d = single_def(l)
+        if d is None or d[0] != 'stmt' or depth > 4:
+            return None
+        st = d[1]
+        if st['lhs']['p'] or st['rv']['k'] != 'ref' or st['rv'].get('mut'):
+            return None
+        pl = st['rv']['place']
+        if not pl['p']:
+            return pl['l']
+        if pl['p'] == ['*']:
+            return through_refs(pl['l'], depth + 1)
+        return None
+    for bi in range(len(src_blocks)):
+        blk = src_blocks[bi]
+        t = blk['term']
+        if t['k'] != 'call' or blk.get('cleanup') or t.get('target') is None or len(t['args']) != 2:
+            continue
+        m = re.match(r'^std::ops::(RangeInclusive|Range)::<Idx>::contains$', t['callee'].get('path') or '')
+        if not m:
+            continue
+        rp, xp = op_place(t['args'][0]), op_place(t['args'][1])
+        if rp is None or xp is None or rp['p'] or xp['p']:
+            continue
+        rl, xl = through_refs(rp['l']), through_refs(xp['l'])
+        if rl is None or xl is None or cur_locals[xl]['ty'] not in INT_TYS or cur_locals[xl]['ty'].startswith('i'):
+            continue
+        rd = single_def(rl)
+        lo = hi = None
+        if m.group(1) == 'RangeInclusive' and rd and rd[0] == 'call' and (rd[1]['callee'].get('path') or '').endswith('RangeInclusive::<Idx>::new') and len(rd[1]['args']) == 2:
+            lo, hi = rd[1]['args']
+        elif m.group(1) == 'Range' and rd and rd[0] == 'stmt' and rd[1]['rv']['k'] == 'agg' and (rd[1]['rv'].get('adt') or '').endswith('ops::Range') and len(rd[1]['rv'].get('ops', [])) == 2:
+            lo, hi = rd[1]['rv']['ops']
+        if lo is None or 'const' not in lo or 'const' not in hi:
+            continue
+        # the value tested must not be written between here and its use: it is a parameter or an immutable user variable
+        if cur_locals[xl].get('mut') and not (1 <= xl <= mir['arg_count'] and single_def(xl) is None):
+            continue
+        if blocks is None:
+            blocks = [dict(b) for b in mir['blocks']]
+            locals_ = list(mir['locals'])
+            src_blocks, cur_locals = blocks, locals_
+        line = t['line']
+        mk = lambda **kw: dict({'line': line, 'exp': False}, **kw)
+        c1, c2 = len(locals_), len(locals_) + 1
+        locals_ += [{'ty': 'bool', 'user': False, 'mut': False, 'modelled': 'contains'}, {'ty': 'bool', 'user': False, 'mut': False, 'modelled': 'contains'}]
+        x = {'copy': {'l': xl, 'p': []}}
+        tgt = blocks[t['target']]
+        tt = tgt['term']
+        dest = t['dest']
+        threaded = (not dest['p'] and not [st for st in tgt['stmts'] if st['k'] not in ('storage_live', 'storage_dead', 'nop')] and tt['k'] == 'switch'
+                    and op_place(tt['discr']) == {'l': dest['l'], 'p': []} and len(tt['targets']) == 1 and tt['targets'][0][0] == 0)
+        if threaded:
+            # nobody else reads the flag
+            uses = json.dumps([b2 for j, b2 in enumerate(blocks) if j not in (bi, t['target'])]).count('"l": %d,' % dest['l'])
+            threaded = uses == 0
+        if threaded:
+            F, T = tt['targets'][0][1], tt['otherwise']
+        else:
+            F, T = len(blocks), len(blocks) + 1
+            blocks.append({'cleanup': False, 'stmts': [mk(k='assign', lhs=dest, rv={'k': 'use', 'op': {'const': {'ty': 'bool', 'val': 0}}})], 'term': mk(k='goto', target=t['target'])})
+            blocks.append({'cleanup': False, 'stmts': [mk(k='assign', lhs=dest, rv={'k': 'use', 'op': {'const': {'ty': 'bool', 'val': 1}}})], 'term': mk(k='goto', target=t['target'])})
+        A = len(blocks)
+        blocks.append({'cleanup': False, 'stmts': [mk(k='assign', lhs={'l': c2, 'p': []}, rv={'k': 'bin', 'op': 'Le' if m.group(1) == 'RangeInclusive' else 'Lt', 'a': x, 'b': hi})],
+                       'term': mk(k='switch', discr={'move': {'l': c2, 'p': []}}, targets=[[0, F]], otherwise=T, modelled='contains')})
+        nb = dict(blocks[bi])
+        nb['stmts'] = list(nb['stmts']) + [mk(k='assign', lhs={'l': c1, 'p': []}, rv={'k': 'bin', 'op': 'Le', 'a': lo, 'b': x})]
+        nb['term'] = mk(k='switch', discr={'move': {'l': c1, 'p': []}}, targets=[[0, F]], otherwise=A, modelled='contains')
+        blocks[bi] = nb
     if blocks is None:
         return None
     out = dict(mir)
